@@ -259,6 +259,20 @@ def main(tier="quick"):
         nprog += len(ft)
         for i in range(0, len(ft), 40):
             work.append((backend, ft[i:i + 40], pool, mdsb, "qastle-only"))
+    # lambda parameters named like things the query itself DECLARES: the top-level namespace of an enum, the enum, a C++ function
+    for backend in plan:
+        a = qgen.ALPHA[backend]
+        S = f"e.{a.primary}('A')"
+        decl = ({"metadata_type": "define_enum", "namespace": "NSA.Sub", "name": "Color", "values": ["Red", "Blue"]},
+                {"metadata_type": "add_method_type_info", "type_string": a.primary_cls, "method_name": "color", "return_type": "NSA::Sub::Color"},
+                {"metadata_type": "add_cpp_function", "name": "vmfn", "include_files": [], "arguments": ["x"], "code": ["double result = x * 2;"], "return_type": "double"})
+        texts = [f"ds.Select(lambda e: {S}.Where(lambda j: j.color() == NSA.Sub.Color.Red).Select(lambda j: j.pt()))",
+                 f"ds.Select(lambda e: {S}.Where(lambda j: j.color() != NSA.Sub.Color.Blue).Count())",
+                 f"ds.SelectMany(lambda e: {S}).Where(lambda j: j.color() == NSA.Sub.Color.Red).Select(lambda j: vmfn(j.pt()))",
+                 f"ds.Select(lambda e: {S}.Select(lambda j: vmfn(j.pt()))).Select(lambda x: x.Count())"]
+        nprog += len(texts)
+        for t in texts:
+            work.append((backend, [t], ("e", "NSA", "Color", "vmfn"), tuple(qgen.method_metadata(a)) + decl))
     if tier != "quick":
         # a second sweep with a pool that contains the names func_adl's own lowering uses for its lambdas (acc, v)
         g = qgen.Gen("atlas")
